@@ -63,7 +63,7 @@ class Effects:
         return fn.qualname + ('#setter' if fn.is_setter else '')
 
     def _build(self):
-        opts = WalkOptions(unroll=1, prune=False, callee_raises=False, inline_depth=1, max_paths=50000, inline_full=frozenset())
+        opts = WalkOptions(unroll=1, prune=False, callee_raises=False, inline_depth=1, max_paths=50000, inline_full=frozenset({'<private>'}))
         for fn in self.prog.all_functions:
             k = self.key(fn)
             try:
